@@ -8,7 +8,14 @@ THEOREMS = ["LNN.C05_monotone",
             "LNN.C05_steps",
             "LNN.C05_infer",
             "LNN.C05_call",
-            "LNN.C05_pass"]
+            "LNN.C05_pass",
+            "LNN.C05_propagate_keeps",
+            "LNN.C05_layer_calls",
+            "LNN.C05_layer_is_plain",
+            "LNN.C05_fol_call",
+            "LNN.C05_fol_calls",
+            "LNN.C05_fol_infer",
+            "LNN.C05_fol_plain"]
 MODULES = ["LnnVerif.Props.C05"]
 FACETS = {"bounds"}
 
